@@ -64,7 +64,9 @@ def execute(cmd, filename, timeout):
         proc.kill()
         logging.debug(f'[!!] timeout: terminated after {timeout:.2f} seconds')
         return RunInfo(proc.returncode, None, None, timeout)
-    return RunInfo(proc.returncode, out.decode(), err.decode(), runtime)
+    # the output of the command need not be text
+    return RunInfo(proc.returncode, out.decode(errors='backslashreplace'),
+                   err.decode(errors='backslashreplace'), runtime)
 
 
 def matches_golden(golden, run, ignore_out, ignore_err, match_out, match_err):
